@@ -3,6 +3,7 @@ package main
 import (
 	"fmt"
 	"sort"
+	"sync"
 	"time"
 
 	"github.com/anishathalye/porcupine"
@@ -110,6 +111,8 @@ func (r *Run) linearizability() {
 	var init linState
 	init.slots = r.installs[0].Stamps
 	init.view = r.installs[0].Stamps
+	var gate sync.RWMutex
+	closed := false
 	model := porcupine.Model{
 		Init: func() interface{} { return init },
 		Step: func(state, input, output interface{}) (bool, interface{}) {
@@ -124,7 +127,16 @@ func (r *Run) linearizability() {
 			}
 			st.seq[in.client]++
 			st.slots[in.src] = in.id
+			// (the checker's goroutines may outlive its timeout: once the check
+			// has returned they must not run library code any more, the next
+			// run's simulator would take them for its own tasks)
+			gate.RLock()
+			if closed {
+				gate.RUnlock()
+				return false, st
+			}
 			f := r.fresh(st.slots)
+			gate.RUnlock()
 			installed := f.err == nil && f.valid
 			if installed {
 				st.view = st.slots
@@ -149,7 +161,11 @@ func (r *Run) linearizability() {
 	// the checker starts goroutines and a real-time timer of its own: it runs
 	// after the bubble has been left (execute), on the recorded history
 	r.post = append(r.post, func(res *Result) {
-		switch porcupine.CheckOperationsTimeout(model, ops, 3*time.Second) {
+		verdict := porcupine.CheckOperationsTimeout(model, ops, 3*time.Second)
+		gate.Lock()
+		closed = true
+		gate.Unlock()
+		switch verdict {
 		case porcupine.Illegal:
 			res.Viol = append(res.Viol, Violation{Oracle: "C05.linearizability", Msg: fmt.Sprintf("the history of %d reports and %d reads has no linearization against the sequential slot/view/serial model: %s", len(ops)-nreads, nreads, describeOps(ops))})
 		case porcupine.Unknown:
